@@ -19,6 +19,8 @@ impl ExpirationQueue {
     #[verifier::external_body]
     pub fn reschedule_as_faults(&mut self, new_expiration: ChainEpoch, sectors: &[SectorOnChainInfo], sector_size: SectorSize) -> (r: anyhow::Result<PowerPair>) { unimplemented!() }
     #[verifier::external_body]
+    pub fn reschedule_all_as_faults(&mut self, fault_expiration: ChainEpoch) -> (r: anyhow::Result<()>) { unimplemented!() }
+    #[verifier::external_body]
     pub fn reschedule_recovered(&mut self, sectors: Vec<SectorOnChainInfo>, sector_size: SectorSize) -> (r: anyhow::Result<PowerPair>) { unimplemented!() }
 }
 #[verifier::external_body]
